@@ -30,7 +30,7 @@ def mkConv (kcals_daily fat_daily protein_daily population : α) : Conv α :=
   let f_protein_monthly : α := (((protein_daily / (1000000.0 : α)) * f_days_in_month) / (1000.0 : α))
   let f_billion_kcals_needed : α := ((f_kcals_monthly * population) / (1000000000.0 : α))
   let f_thou_tons_fat_needed : α := (f_fat_monthly * population)
-  let f_thou_tons_protein_needed : α := (f_fat_monthly * population)
+  let f_thou_tons_protein_needed : α := (f_protein_monthly * population)
   let f_population : α := population
   { days_in_month := f_days_in_month,
     kcals_daily := f_kcals_daily,
